@@ -69,6 +69,60 @@ for i, (ti, kind, pos) in enumerate(expect):
     rejected = m < n
     report["mutations"].append({"trace": ti, "kind": kind, "position": pos, "rejected": rejected, "matched_prefix": m, "length": n})
     ok = ok and rejected and m <= pos + 1
+# the same for the client model: traces of the real client against the scripted server
+from harness import clientproto as cp  # noqa
+
+def _strip(t):
+    return [{k: v for k, v in e.items() if k != "exc"} for e in t]
+
+ctraces = []
+for seed in range(40):
+    sc = cp.rand_scenario(1000 + seed)
+    sc["p"] = 0.1
+    r = cp.run_random(sc)
+    if len(r["trace"]) > 12:
+        ctraces.append(_strip(r["trace"]))
+ctraces = ctraces[:8]
+cres, _ = tlc.validate_plain("TraceClientProto", ctraces)
+report["client_accepted_originals"] = all(cres[i][0] == cres[i][1] for i in range(len(ctraces)))
+ok = ok and report["client_accepted_originals"]
+cmut, cexp = [], []
+for ti, tr in enumerate(ctraces):
+    for kind in ("send-verb", "drop-send", "ret-kind", "reply-code", "end-blocked", "dup-send"):
+        t = copy.deepcopy(tr)
+        sends = [i for i, e in enumerate(t) if e["ev"] == "Send"]
+        rets = [i for i, e in enumerate(t) if e["ev"] == "Ret"]
+        if kind == "send-verb" and sends:
+            pos = rng.choice(sends)
+            t[pos]["v"] = "NOOP" if t[pos]["v"] != "NOOP" else "PWD"
+        elif kind == "drop-send" and sends:
+            pos = rng.choice(sends)
+            del t[pos]
+        elif kind == "dup-send" and sends:
+            pos = rng.choice(sends)
+            t.insert(pos, copy.deepcopy(t[pos]))
+            pos += 1
+        elif kind == "ret-kind" and rets:
+            pos = rng.choice(rets)
+            t[pos]["kind"] = "ok" if t[pos]["kind"] != "ok" else "SCE"
+        elif kind == "reply-code":
+            # a different code for the greeting: the client must then end connect() differently
+            pos = [i for i, e in enumerate(t) if e["ev"] == "Reply"][0]
+            t[pos]["code"] = 530 if t[pos]["code"] in (220, 120) else 220
+        elif kind == "end-blocked":
+            pos = len(t) - 1
+            t[pos]["blocked"] = not t[pos]["blocked"]
+        else:
+            continue
+        cmut.append(t)
+        cexp.append((ti, kind, pos))
+cres2, _ = tlc.validate_plain("TraceClientProto", cmut)
+for i, (ti, kind, pos) in enumerate(cexp):
+    m, n = cres2[i]
+    rejected = m < n
+    report["mutations"].append({"trace": "client-%d" % ti, "kind": kind, "position": pos, "rejected": rejected, "matched_prefix": m, "length": n})
+    ok = ok and rejected
+expect = expect + cexp
 report["ok"] = ok
 os.makedirs("/verif/evidence", exist_ok=True)
 json.dump(report, open("/verif/evidence/selftest.json", "w"), indent=1)
